@@ -185,7 +185,7 @@ static void sleep_until_rel(long long (*nowf)(void*), void* w, long long rel_us)
 
 template <class Ctx>
 static bool run_attempt(const Scenario& sc, long x, int attempt, unsigned seed, long& discards) {
-  long long lead = 60000LL << attempt;
+  long long lead = 40000LL << attempt;
   rtx::race.store(sc.race == "io_first" ? 1 : sc.race == "stop_first" ? 2 : 0);
   rtx::race_due_ns.store(0);
   rtx::b_ready.store(false); rtx::io_at_fa.store(false); rtx::io_past_fa.store(false); rtx::b_past_fa.store(false);
@@ -194,6 +194,12 @@ static bool run_attempt(const Scenario& sc, long x, int attempt, unsigned seed, 
   World<Ctx>* wp = w.get();
   for (int i = 1; i <= w->n(); ++i) w->src[i] = std::make_unique<inplace_stop_source>();
   std::thread io([wp] { wp->ctx.run(wp->runStop.get_token()); });
+  {  // warm-up: the I/O thread is running its loop before the execution's clock starts
+    std::atomic<bool> flag{false};
+    auto fop = unifex::connect(unifex::schedule(w->ctx.get_scheduler()), FenceRcv{&flag});
+    unifex::start(fop);
+    if (!rtx::wait_for([&] { return flag.load(); }, 20000000)) vrt::die("Hang", 76);
+  }
   w->t_start = w->ctx.get_scheduler().now();
   bool anyFuture = false; int maxTick = 0;
   for (int i = 1; i <= w->n(); ++i) {
